@@ -22,6 +22,9 @@ def plan(prop, tier):
 
 def separator(rng, final=False):
     r = rng.random()
+    if r < 0.01:
+        body = bytes(rng.choice(b'ab /"\\x') for _ in range(rng.choice([255, 256, 257, 1024, 4096]))).replace(b'*/', b'* ')
+        return b'/*' + body + (b' ' if body.endswith(b'*') else b'') + b'*/'
     if r < 0.35:
         return b''
     if r < 0.65:
